@@ -15,9 +15,12 @@ package storage
 
 import (
 	"bytes"
+	"context"
 	"encoding/binary"
 	"fmt"
 	"math"
+	"sort"
+	"strings"
 	"testing"
 	"time"
 
@@ -294,6 +297,181 @@ func TestVF_C07_PITR(t *testing.T) {
 		if c07NonTrivial(c) {
 			st.NonTrivial(c.Shape, c.Bases[0], c07FlagList(c), k)
 			st.Sample(c07Sample(c, map[string]any{"cutoff": cutoff, "kept_records": k}))
+		}
+	})
+}
+
+// TestVF_C07_Log: segments written by a real PartitionLog under upload faults with appends
+// arriving during the in-flight upload (see vf_c07_log_test.go), read back with the independent
+// codec and the restore scanner.
+func TestVF_C07_Log(t *testing.T) {
+	st := vfkit.NewStats("C07", "log")
+	defer st.Flush()
+	rapid.Check(t, func(t *rapid.T) {
+		st.Eval()
+		c := c07GenCase(t, false)
+		interval := rapid.SampledFrom([]int32{1, 3, 100}).Draw(t, "interval")
+		run, msg := c07RunLog(t, c, interval)
+		if msg == "" {
+			msg = c07CheckLogRun(c, run)
+		}
+		if msg != "" {
+			t.Fatalf("%s\nbatches %s bases %v\ntrace: %v", msg, c.Shape, c.Bases, run.Trace)
+		}
+		for _, s := range run.Stored {
+			all, err := collectRecoverableBatches(s.Seg, math.MaxInt64)
+			if err != nil {
+				t.Fatalf("restore scanner rejects stored segment %d: %v", s.Base, err)
+			}
+			var cat []byte
+			for _, b := range all {
+				cat = append(cat, b.Bytes...)
+			}
+			if !bytes.Equal(cat, s.Seg[32:len(s.Seg)-16]) {
+				t.Fatalf("restore scanner does not return the batches of stored segment %d byte for byte", s.Base)
+			}
+		}
+		st.Class(fmt.Sprintf("segments-%d", min(len(run.Stored), 4)))
+		if run.Failed > 0 {
+			st.Class("flush-failed")
+		}
+		if run.Injected > 0 {
+			st.Class("append-during-upload")
+		}
+		if run.Failed > 0 && run.Injected > 0 {
+			st.Class("append-during-failing-upload")
+			if st.NonTrivial(c.Shape, c.Bases[0], interval, run.Trace) {
+				st.Sample(map[string]any{"shape": c.Shape, "bases": c.Bases, "trace": run.Trace, "segments": len(run.Stored)})
+			}
+		}
+	})
+}
+
+// TestVF_C07_Restore: the restore driver (RecoverTopicToTimestamp) over a partition whose
+// segments carry NON-MONOTONIC creation times (clock skew between brokers, failover). Record
+// timestamps never exceed the creation time of the segment that holds them (a record is
+// produced before it is flushed). Oracle on the segments the restore writes: each is a well
+// formed segment/index pair (independent reader), together they hold a field-exact PREFIX of
+// the produced records, and none of them holds a record newer than the restore point.
+func TestVF_C07_Restore(t *testing.T) {
+	st := vfkit.NewStats("C07", "restore")
+	defer st.Flush()
+	rapid.Check(t, func(t *rapid.T) {
+		st.Eval()
+		restoreTo := int64(1726000000000) + int64(rapid.IntRange(0, 1000000).Draw(t, "restore-point"))
+		nseg := rapid.IntRange(1, 6).Draw(t, "segments")
+		store := vfkit.NewObjStore()
+		s3 := newVfS3(store)
+		ctx := context.Background()
+		type prodRec struct {
+			off, ts int64
+			val     string
+		}
+		var produced []prodRec
+		var pattern []string
+		next := int64(rapid.SampledFrom([]int{0, 0, 17}).Draw(t, "first-offset"))
+		monotonic, prevCreated := true, int64(math.MinInt64)
+		for s := 0; s < nseg; s++ {
+			// creation time relative to the restore point, independent per segment
+			created := restoreTo + rapid.SampledFrom([]int64{-500000, -2000, -1, 0, 1, 300, 2000, 500000}).Draw(t, "created-minus-restore-point")
+			if created < prevCreated {
+				monotonic = false
+			}
+			prevCreated = created
+			if created > restoreTo {
+				pattern = append(pattern, "after")
+			} else {
+				pattern = append(pattern, "before")
+			}
+			nb := rapid.IntRange(1, 3).Draw(t, "batches")
+			var rbs []RecordBatch
+			base := next
+			for b := 0; b < nb; b++ {
+				n := rapid.IntRange(1, 3).Draw(t, "records")
+				// batch timestamps: non-decreasing inside the segment, all <= created
+				first := created - int64(rapid.IntRange(0, 1500).Draw(t, "age"))
+				recs := make([]vfkit.Record, n)
+				for i := range recs {
+					d := int64(rapid.IntRange(0, int(created-first)).Draw(t, "delta"))
+					v := fmt.Sprintf("v-%d", next+int64(i))
+					recs[i] = vfkit.Record{TsDelta: d, Key: []byte("k"), Value: []byte(v)}
+					produced = append(produced, prodRec{off: next + int64(i), ts: first + d, val: v})
+				}
+				rb, err := NewRecordBatchFromBytes(vfkit.NewBatch(0, first, recs).Encode())
+				if err != nil {
+					t.Fatalf("harness: %v", err)
+				}
+				PatchRecordBatchBaseOffset(&rb, next)
+				rbs = append(rbs, rb)
+				next += int64(n)
+			}
+			art, err := BuildSegment(SegmentWriterConfig{IndexIntervalMessages: 1}, rbs, time.UnixMilli(created))
+			if err != nil {
+				t.Fatalf("harness: %v", err)
+			}
+			_ = s3.UploadSegment(ctx, segmentObjectKey("ns", "orders", 0, base), art.SegmentBytes)
+			_ = s3.UploadIndex(ctx, segmentIndexKey("ns", "orders", 0, base), art.IndexBytes)
+		}
+		res, err := RecoverTopicToTimestamp(ctx, s3, TopicRecoveryConfig{SourceNamespace: "ns", SourceTopic: "orders", TargetNamespace: "ns", TargetTopic: "restored", RestoreTo: time.UnixMilli(restoreTo)})
+		if err != nil {
+			t.Fatalf("RecoverTopicToTimestamp failed on well-formed segments (creation pattern %v): %v", pattern, err)
+		}
+		objs, _ := s3.ListSegments(ctx, "ns/restored/")
+		var stored []c07Stored
+		for _, o := range objs {
+			if !strings.HasSuffix(o.Key, ".kfs") {
+				continue
+			}
+			var base int64
+			if _, err := fmt.Sscanf(o.Key[strings.LastIndex(o.Key, "/")+1:], "segment-%d.kfs", &base); err != nil {
+				t.Fatalf("restore wrote an object with an unexpected key %q", o.Key)
+			}
+			seg, _ := s3.DownloadSegment(ctx, o.Key, nil)
+			idx, err := s3.DownloadIndex(ctx, strings.TrimSuffix(o.Key, ".kfs")+".index")
+			if err != nil {
+				t.Fatalf("restored segment %s has no index object", o.Key)
+			}
+			stored = append(stored, c07Stored{Base: base, Seg: seg, Idx: idx})
+		}
+		sort.Slice(stored, func(a, b int) bool { return stored[a].Base < stored[b].Base })
+		k := 0
+		for _, sgm := range stored {
+			bs, msg := c07CheckStored(sgm)
+			if msg != "" {
+				t.Fatalf("restored %s (creation pattern %v)", msg, pattern)
+			}
+			for _, b := range bs {
+				for _, r := range b.Records {
+					if k >= len(produced) {
+						t.Fatalf("the restored topic holds more records than the source")
+					}
+					p := produced[k]
+					off, ts := b.BaseOffset+int64(r.OffsetDelta), b.FirstTimestamp+r.TsDelta
+					if off != p.off || ts != p.ts || string(r.Value) != p.val || string(r.Key) != "k" {
+						t.Fatalf("restored record #%d is (offset %d, ts %d, value %q), the producer sent (offset %d, ts %d, value %q); creation pattern %v", k, off, ts, r.Value, p.off, p.ts, p.val, pattern)
+					}
+					if ts > restoreTo {
+						t.Fatalf("the restored topic holds offset %d with timestamp %d, %d ms after the restore point %d (segment creation times relative to the restore point, in offset order: %v; restored segments %d)",
+							off, ts, ts-restoreTo, restoreTo, pattern, res.SegmentsCopied)
+					}
+					k++
+				}
+			}
+		}
+		st.Class(fmt.Sprintf("segments-%d", nseg))
+		switch {
+		case k == 0:
+			st.Class("restored-nothing")
+		case k == len(produced):
+			st.Class("restored-everything")
+		default:
+			st.Class("restored-prefix")
+		}
+		if !monotonic {
+			st.Class("non-monotonic-creation-times")
+			if st.NonTrivial(strings.Join(pattern, ","), nseg, k, len(produced)) {
+				st.Sample(map[string]any{"creation_vs_restore_point": pattern, "records": len(produced), "restored": k})
+			}
 		}
 	})
 }
